@@ -35,6 +35,11 @@ def _init_armi():
 
     try:
         runLog.setVerbosity("error")
+        # armi reports documented refusals with runLog.error before raising; thousands of paths would flood the
+        # check's output (which carries the verdict lines): logging is silenced (logging is not under test)
+        import logging
+
+        logging.disable(logging.CRITICAL)
     except Exception:
         pass
 
